@@ -1,9 +1,77 @@
 import BronVerif.Drive.Common
-/-! Driver handlers for C12. -/
+import BronVerif.Model.Cbor
+/-! Driver handlers for C12 (wire formats): every verdict is computed with the CBOR model
+(`Model/Cbor.lean`): generic strict decoding, canonical re-encoding, container-level
+classification of mutants. -/
 namespace BronVerif.Drive.C12
-open BronVerif BronVerif.Drive
+open BronVerif BronVerif.Drive BronVerif.Cbor
 
-def handle (op : String) (_args : List String) (_rhs : String) : Verdict :=
-  .unsupported ("C12 op " ++ op)
+def parseBytes? (s : String) : Option Bytes := (hexToBytes? s).map (·.toList)
+
+def renderBytes (b : Bytes) : String := bytesToHex (ByteArray.mk b.toArray)
+
+/-- mutation kinds whose product is malformed at container level by construction -/
+def containerKinds : List String := ["trailing", "indef", "dupkey", "reserved", "truncate"]
+
+def handle (op : String) (args : List String) (rhs : String) : Verdict :=
+  match op, args with
+  -- Go: b = Marshal(v); rhs = Marshal(Unmarshal(b)).  Spec: b is the canonical encoding of the
+  -- item it denotes and the round trip reproduces it byte for byte.
+  | "canon", [_ty, hs] =>
+    match parseBytes? hs with
+    | none => .unsupported "hex"
+    | some b =>
+      match decode b with
+      | none => .bad "own-encoding-rejected-by-strict-decoder" ("bytes=" ++ hs)
+      | some x =>
+        let e := encode x
+        if e ≠ b then .bad "non-canonical-encoding" ("expected=" ++ renderBytes e)
+        else if !(isCanon x) then .bad "non-canonical-encoding" "map keys not strictly ascending"
+        else spec "roundtrip-bytes" hs rhs
+  -- a mutated encoding handed to the typed decoder
+  | "mut", [_ty, kind, hs] =>
+    match parseBytes? hs with
+    | none => .unsupported "hex"
+    | some b =>
+      let d := decode b
+      if containerKinds.contains kind && d.isSome then
+        .diff ("model accepts a mutant of container kind " ++ kind)
+      else if rhs == "reject" then .ok
+      else if rhs.startsWith "accept:" then
+        match d with
+        | none => .bad "malformed-container-accepted" ("kind=" ++ kind)
+        | some _ =>
+          match parseBytes? (rhs.drop 7).toString with
+          | none => .unsupported "rhs"
+          | some b2 =>
+            match decode b2 with
+            | none => .bad "accepted-object-reencodes-malformed" ("kind=" ++ kind)
+            | some y =>
+              if encode y = b2 then .ok
+              else .bad "accepted-object-reencodes-noncanonical" ("expected=" ++ renderBytes (encode y))
+      else .unsupported "rhs"
+  -- generic decoding into `any` with the library's decoding mode
+  | "any", [hs] =>
+    match parseBytes? hs with
+    | none => .unsupported "hex"
+    | some b =>
+      match decode b with
+      | none =>
+        if rhs == "reject" then .ok
+        else .bad "malformed-container-accepted" "generic decode"
+      | some x =>
+        match anyClass x with
+        | .unknown => if rhs == "accept" ∨ rhs == "reject" then .ok else .unsupported "rhs"
+        | .accept => mirror "accept" rhs
+        | .reject => mirror "reject" rhs
+  -- sloppy (non-shortest, unsorted) encoding → Go decode into any → Go deterministic encode
+  | "enc", [hs] =>
+    match parseBytes? hs with
+    | none => .unsupported "hex"
+    | some b =>
+      match decode b with
+      | none => mirror "reject" rhs
+      | some x => spec "coredet-encoding" (renderBytes (encode x)) rhs
+  | _, _ => .unsupported ("C12 op " ++ op)
 
 end BronVerif.Drive.C12
